@@ -62,6 +62,18 @@ def step (line : String) : String :=
       let (v, c') := check cfg (fun _ => false) acc.1 0 (some e)
       (c', acc.2 ++ (if v then "1" else "0"))) ([], "")
     s!"verdicts={vs}"
+  | ["HR", t, times] =>
+    -- the helper says yes at time 0 and no afterwards (revocation); the cache keeps a verdict `timeout` seconds
+    match t.toNat? with
+    | some timeout =>
+      let cfg : AuthCfg := { (cfgOf true timeout false) with cacheTimeout := timeout * 1000 }
+      let u : Cred := (sB "carol", sB "pw")
+      let ts := (times.splitOn ",").filterMap String.toNat?
+      let (_, vs) := ts.foldl (fun (acc : Cache × String) (now : Nat) =>
+        let (v, c') := check cfg (fun _ => now == 0) acc.1 now (some u)
+        (c', acc.2 ++ (if v then "1" else "0"))) ([], "")
+      s!"verdicts={vs}"
+    | none => "bad-op"
   | ["T", kind, policy, present] =>
     let k : ListenerKind := if kind == "http" then .http else if kind == "socks" then .socks else .quic
     let pol : Option TlsClientPolicy := if policy == "absent" then none else some { required := policy.startsWith "required" }
